@@ -16,7 +16,12 @@ def main():
             out = os.path.join(tmp, "u.json")
             subprocess.run(["python3-vt", "-m", "pyvc.cex", "--repo", st.REPO, "--budget", "40", "--procs", "16", "--json", out], capture_output=True, text=True, cwd=ROOT)
             reps = json.load(open(out)); c = collections.Counter(r["status"] for r in reps)
-            rows["unchanged"] = {"statuses": dict(c), "confirmed_on_unchanged_tree": [r["function"] for r in reps if r["status"] == "confirmed"]}
+            known = [e["obligation"] for e in json.load(open(os.path.join(ROOT, "known_findings.json"))) if e.get("status") == "known" and e.get("tier") == "P"]
+            known_fns = [k.split("::")[1].replace("\\", "") for k in known if k.count("::") >= 2]       # 'file\.py::function\[inst\]::kind...' -> 'function[inst]'
+            def is_known(r): return any(f in r["function"] for f in known_fns)
+            rows["unchanged"] = {"statuses": dict(c), "confirmed_for_a_recorded_known_finding": [r["function"] for r in reps if r["status"] == "confirmed" and is_known(r)],
+                                 "confirmed_on_unchanged_tree": [r["function"] for r in reps if r["status"] == "confirmed" and not is_known(r)],
+                                 "candidates_not_confirmed": [r["function"] for r in reps if r["status"] == "candidate-not-confirmed"]}
             print("unchanged tree:", dict(c), "confirmed:", rows["unchanged"]["confirmed_on_unchanged_tree"], flush=True)
         for m in st.MUTANTS:
             mid, file, old, new, occ, func, what = m
